@@ -260,8 +260,42 @@ def _index_maps(prog, rep):
             okk = src(v) == f"self._variables[{a_}][{b_}]"
             why = f"under `{src(n.test)}` the element appended is `{src(v)[:60]}`; the mirror element self._variables[{a_}][{b_}] must be reused so that A[i][j] and A[j][i] are ONE variable"
         rep.ob("R11.3", "MatrixVariable.__init__", okk, f"symmetric: for {src(lt[0]) if lt else '?'} the Variable object at the mirrored position is reused" if okk else why, loc=f"{init.module.rel}:{n.lineno}", detail="symmetric-sharing")
-    named = "Variable(f'{name}[{i},{j}]'" in s
-    rep.pin('index maps of views', "R11.3", "MatrixVariable.__init__", named, "element [i][j] is named name[i,j]" if named else "matrix elements are not named name[i,j] at position [i][j]", loc=init.loc, detail="element-names")
+    # element [i][j] is named name[i,j]: the Variable(...) construction sits under a loop / comprehension over range(rows)
+    # (outer: i) and one over range(cols) (inner: j); its name is read as a string pattern
+    masg = local_assignments(init.node)
+    found_m = 0
+    for c in calls(init.node, local=False):
+        if dotted(c.func) != "Variable" or not c.args:
+            continue
+        binders = []          # innermost first: (index name, range argument)
+        p_ = parent(c)
+        while p_ is not None and p_ is not init.node:
+            gens = []
+            if isinstance(p_, (ast.ListComp, ast.GeneratorExp)):
+                gens = list(reversed(p_.generators))
+            elif isinstance(p_, ast.For):
+                gens = [p_]
+            for g in gens:
+                it = g.iter
+                if isinstance(it, ast.Call) and dotted(it.func) == "range" and len(it.args) == 1 and isinstance(g.target, ast.Name):
+                    binders.append((g.target.id, src(it.args[0])))
+                else:
+                    binders.append((src(g.target), "?"))
+            p_ = parent(p_)
+        found_m += 1
+        pat = _fstring_pattern(c.args[0], masg)
+        if pat is None or len(binders) != 2 or any(b[1] == "?" for b in binders):
+            rep.undecided(f"MatrixVariable.__init__: element names `{src(c.args[0])[:40]}` under loops {binders} not interpretable")
+            continue
+        (j_, cols_), (i_, rows_) = binders
+        if (rows_, cols_) not in (("rows", "cols"), ("self.rows", "self.cols")):
+            rep.undecided(f"MatrixVariable.__init__: element construction ranges over ({rows_}, {cols_})")
+            continue
+        ok_m = pat in ([("expr", "name"), "[", ("expr", i_), ",", ("expr", j_), "]"], [("expr", "self.name"), "[", ("expr", i_), ",", ("expr", j_), "]"])
+        shown = "".join(p if isinstance(p, str) else "{" + p[1] + "}" for p in pat)
+        rep.ob("R11.3", "MatrixVariable.__init__", ok_m, f"element [{i_}][{j_}] is named name[{i_},{j_}]" if ok_m else f"the element built in row {i_}, column {j_} is named `{shown}`, not name[{i_},{j_}]", loc=f"{init.module.rel}:{c.lineno}", detail="element-names", robust=True)
+    if not found_m:
+        rep.undecided("MatrixVariable.__init__: no Variable(...) construction found")
     for mname in ("diagonal", "trace"):
         m = MV.methods[mname]
         t = src(m.node)
